@@ -446,6 +446,7 @@ inline int driver_main(int argc, char **argv) {
   signal(SIGBUS, pbt_sig);
   signal(SIGFPE, pbt_sig);
   signal(SIGILL, pbt_sig);  // clang -fsanitize=bounds traps with ud2
+  signal(SIGPIPE, SIG_IGN);  // harness writes to peers that may have been closed by the scenario
   signal(SIGALRM, pbt_sig);
   if (__sanitizer_set_death_callback) __sanitizer_set_death_callback(pbt_san_death);
 
